@@ -64,10 +64,11 @@ def render_module(mod, ent, cache):
          "   One definition s_<f> per translated function, in the state-passing style of the hand-written models. *)",
          "From Coq Require Import List Arith ZArith Lia Bool.",
          ent["imports"], "Import ListNotations.", "",
-         "Section Src%s." % mod, "Context {A : Arith}.", ""]
+         "Section Src%s." % mod] + ent.get("context", ["Context {A : Arith}."]) + [""]
     sigs, errors = {}, {}
     for spec in ent["funcs"]:
         rel = spec["file"]
+        spec = dict(ent.get("spec", {}), **spec)
         try:
             if rel not in cache:
                 cache[rel] = rust2coq.parse_file(_src(rel), rel)
